@@ -155,6 +155,7 @@ with eval_from (fuel : nat) (d : db) (env : list row) (f : fromitem) {struct fue
       | FSub q w =>
           do rows <- eval_query fuel' d env q;
           if forallb (fun r => Nat.eqb (length r) w) rows then Ok rows else Err 4
+      | FView _ _ => Err 4     (* views / CTEs are expanded away before evaluation *)
       | FJoin k l r on =>
           do lr <- eval_from fuel' d env l;
           do rr <- eval_from fuel' d env r;
